@@ -83,6 +83,7 @@ func snapOf(id int, genesis bool) *built {
 
 var theStore *storage.BadgerStore
 var theDir string
+var served int // cases served by the current store
 
 func tmpRoot() string {
 	if os.Getenv("TMPDIR") == "" {
@@ -99,7 +100,12 @@ func tmpRoot() string {
 // One store serves every case of a run; it is emptied between cases with the
 // public RemoveGraphEntries("") and checked to be empty.
 func openStore() (*storage.BadgerStore, func()) {
+	if theStore != nil && served >= 40 {
+		closeStore() // deleted keys stay as tombstones and slow every scan: start over on a new store
+	}
+	served++
 	if theStore == nil {
+		served = 1
 		dir, err := os.MkdirTemp(tmpRoot(), "c35-")
 		if err != nil {
 			panic(err)
@@ -664,7 +670,7 @@ func main() {
 	for _, cs := range corpus() {
 		run(c, cs)
 	}
-	n := c.Scale(200, 8000)
+	n := c.Scale(300, 8000)
 	nl := c.Scale(3, 60)
 	for i := 0; i < n; i++ {
 		run(c, genHistory(c.Rng, c.Rng.Range(5, 40), false))
